@@ -49,12 +49,22 @@ def project(rec, ids):
     if isinstance(rec, GroupedRecord):
         out = []
         for m in rec.records:
-            out.append({"n": "<member>", "t": m._desc.name, "v": "-"})
+            out.append({"n": "<member>", "t": m._desc.name, "v": {"k": "id", "id": "-", "na": "-", "fs": [], "items": []}})
             out += project(m, ids)[1]
         return rec.name, out
+    from flow.record import Record
+
+    def val(v):
+        if isinstance(v, Record) and not isinstance(v, GroupedRecord):
+            na, fs = project(v, ids)
+            return {"k": "rec", "id": "-", "na": na, "fs": fs, "items": []}
+        if isinstance(v, list) and v and all(isinstance(x, Record) and not isinstance(x, GroupedRecord) for x in v):
+            return {"k": "list", "id": "-", "na": "-", "fs": [], "items": [val(x) for x in v]}
+        return {"k": "id", "id": ids.of(v), "na": "-", "fs": [], "items": []}
+
     out = []
     for name, f in rec._desc.get_all_fields().items():
-        out.append({"n": name, "t": f.typename, "v": ids.of(getattr(rec, name))})
+        out.append({"n": name, "t": f.typename, "v": val(getattr(rec, name))})
     return rec._desc.name, out
 
 
@@ -92,9 +102,10 @@ def run(tier):
 
     ctx = check.Ctx(PROP, tier)
     thorough = tier == "thorough"
-    ctx.design("Ignore", "MC_Ignore.cfg", "all sequences <= 6 of set / enter / exit-ok / exit-error over 3 field sets, nesting <= 3", actions=("Set", "Enter", "ExitOk", "ExitErr"), workers=4)
+    ctx.design("Ignore", "MC_Ignore.cfg", "all sequences <= 6 of set / enter / exit-ok / exit-error over 3 field sets, nesting <= 3", actions=("Set", "Enter", "ExitOk", "ExitErr", "ExitBase"), workers=4)
     if thorough:
         ctx.sensitivity("Ignore", "MC_Ignore_dev.cfg", "a scope without 'finally' must violate ScopeRestores", "ScopeRestores", workers=4)
+        ctx.sensitivity("Ignore", "MC_Ignore_dev2.cfg", "a scope restored for ordinary exceptions only must violate ScopeRestores", "ScopeRestores", workers=4)
     vc = gen.value_classes()
     traces, metas = [], []
     setter = set_ignored_fields_for_comparison
@@ -180,6 +191,26 @@ def run(tier):
             add(ga, mk(qa, na), ign, {"pair": "grouped-vs-plain", "ign": sorted(ign)})
             gc = GroupedRecord("g/x", [mk(qa, na), C("ls -la", "other-g", _generated=gen.GEN)])
             add(ga, gc, ign, {"pair": "grouped-vary-g", "ign": sorted(ign)})
+    # differences that sit ONLY in an ignored field of a nested record / of a later member of a grouped record
+    import datetime as _dt
+
+    G2 = _dt.datetime(2021, 5, 6, 7, 8, 9, tzinfo=_dt.timezone.utc)
+    I2 = RecordDescriptor("t/inner2", [("string", "q"), ("string", "g")])
+    for ign in (set(), {"_generated"}, {"g"}, {"_generated", "g"}, {"q"}):
+        inner_a, inner_b = I("x", 1, _generated=gen.GEN), I("x", 1, _generated=G2)
+        add(H(inner_a, [], "x", _generated=gen.GEN), H(inner_b, [], "x", _generated=gen.GEN), ign, {"pair": "nested-vary-inner-generated", "ign": sorted(ign)})
+        add(H(None, [mk("l", 1), inner_a], "x", _generated=gen.GEN), H(None, [mk("l", 1), inner_b], "x", _generated=gen.GEN), ign, {"pair": "nested-list-vary-inner-generated", "ign": sorted(ign)})
+        add(H(I("x", 1, _generated=gen.GEN), [], "x", _generated=gen.GEN), H(I("y", 1, _generated=gen.GEN), [], "x", _generated=gen.GEN), ign, {"pair": "nested-vary-inner-q", "ign": sorted(ign)})
+        for first_differs in (False, True):
+            m1a, m1b = mk("x", 1), (I("x", 1, _generated=G2) if first_differs else mk("x", 1))
+            m2a, m2b = I2("x", "g1", _generated=gen.GEN), (I2("x", "g1", _generated=gen.GEN) if first_differs else I2("x", "g1", _generated=G2))
+            add(GroupedRecord("g/x", [m1a, m2a]), GroupedRecord("g/x", [m1b, m2b]), ign, {"pair": "grouped-vary-member-generated", "first": first_differs, "ign": sorted(ign)})
+        # an ordinary field name shared by two members, differing in the second one
+        add(GroupedRecord("g/x", [I2("a", "g1", _generated=gen.GEN), I2("b", "g1", _generated=gen.GEN)]), GroupedRecord("g/x", [I2("a", "g1", _generated=gen.GEN), I2("b", "g2", _generated=gen.GEN)]), ign,
+            {"pair": "grouped-shared-name-vary-second", "ign": sorted(ign)})
+        # a grouped record nested in a grouped record
+        inner_g = lambda gen2: GroupedRecord("g/in", [mk("x", 1), I2("x", "g1", _generated=gen2)])
+        add(GroupedRecord("g/out", [inner_g(gen.GEN), mk("z", 3)]), GroupedRecord("g/out", [inner_g(G2), mk("z", 3)]), ign, {"pair": "grouped-in-grouped-vary-generated", "ign": sorted(ign)})
     ctx.sample({"trace": traces[0], "meta": metas[0]})
     neq = len(traces)
     # scope traces
@@ -189,8 +220,8 @@ def run(tier):
         setter(init)
         ops, cms = [], []
         for _ in range(ctx.rnd.randint(1, 8)):
-            kind = ctx.rnd.choice(["set", "enter", "enter", "exit_ok", "exit_err"])
-            if kind in ("exit_ok", "exit_err") and not cms:
+            kind = ctx.rnd.choice(["set", "enter", "enter", "exit_ok", "exit_err", "exit_base"])
+            if kind in ("exit_ok", "exit_err", "exit_base") and not cms:
                 kind = "enter"
             arg = ctx.rnd.choice(sets)
             try:
@@ -202,12 +233,22 @@ def run(tier):
                     cms.append(cm)
                 elif kind == "exit_ok":
                     cms.pop().__exit__(None, None, None)
-                else:
+                elif kind == "exit_err":
                     e = ValueError("boom")
                     try:
                         cms.pop().__exit__(ValueError, e, None)
                     except ValueError:
                         pass
+                else:
+                    import asyncio
+
+                    et = ctx.rnd.choice([KeyboardInterrupt, SystemExit, GeneratorExit, asyncio.CancelledError])
+                    e = et()
+                    try:
+                        cms.pop().__exit__(et, e, None)
+                    except BaseException as x:  # noqa
+                        if x is not e:
+                            raise
             except Exception:
                 pass
             ops.append({"op": kind, "arg": arg, "after": sorted(base.IGNORE_FIELDS_FOR_COMPARISON)})
